@@ -28,6 +28,7 @@ type Engine struct {
 	startRows      int
 	lineCol        int
 	lineRows       int
+	lastLineRows   int
 	cursorRow      int
 	cursorCol      int
 	hintRows       int
@@ -224,11 +225,17 @@ func (e *Engine) computeCoordinates(suggested bool) {
 	e.cursorCol, e.cursorRow = core.CoordinatesCursor(e.cursor, e.startCols)
 
 	// Get the number of rows used by the line, and the end line X pos.
+	shown := e.line
 	if e.opts.GetBool("history-autosuggest") && suggested {
-		e.lineCol, e.lineRows = core.CoordinatesLine(&e.suggested, e.startCols)
-	} else {
-		e.lineCol, e.lineRows = core.CoordinatesLine(e.line, e.startCols)
+		shown = &e.suggested
 	}
+
+	e.lineCol, e.lineRows = core.CoordinatesLine(shown, e.startCols)
+
+	// And the number of rows on which its last line continues, when wrapped.
+	last := string(*shown)
+	last = last[strings.LastIndex(last, "\n")+1:]
+	_, e.lastLineRows = strutil.LineSpan([]rune(last), 0, e.startCols)
 
 	e.primaryPrinted = false
 }
@@ -295,8 +302,12 @@ func (e *Engine) displayMultilinePrompts() {
 	// Then if we have a line at all, rewrite the last column
 	// character with any secondary prompt available.
 	if e.line.Lines() > 0 {
+		// The prompt goes on the first row of the last line, not
+		// on the row where a wrapped line ends, over its text.
+		term.MoveCursorUp(e.lastLineRows)
 		term.MoveCursorBackwards(term.GetWidth())
 		e.prompt.SecondaryPrint(e.startCols)
+		term.MoveCursorDown(e.lastLineRows)
 		term.MoveCursorBackwards(term.GetWidth())
 		term.MoveCursorForwards(e.lineCol)
 	}
